@@ -9,6 +9,7 @@ package schema
 
 import (
 	"fmt"
+	"net/url"
 	"reflect"
 	"strconv"
 	"strings"
@@ -129,7 +130,7 @@ func (g *Generator) generateWithRefs(t reflect.Type) *openapi3.Schema {
 		// Return schema with reference in extensions.
 		schema := openapi3.NewObjectSchema()
 		schema.Extensions = map[string]interface{}{
-			"$ref": "#/$defs/" + typeName,
+			"$ref": "#/$defs/" + refToken(typeName),
 		}
 		return schema
 	}
@@ -155,7 +156,7 @@ func (g *Generator) generateWithRefs(t reflect.Type) *openapi3.Schema {
 	// Keep "type: object" at root level as MCP protocol validation requires it
 	refSchema := openapi3.NewObjectSchema()
 	refSchema.Extensions = map[string]interface{}{
-		"$ref": "#/$defs/" + typeName,
+		"$ref": "#/$defs/" + refToken(typeName),
 	}
 	return refSchema
 }
@@ -211,7 +212,7 @@ func (g *Generator) generateFieldSchemaWithRefs(t reflect.Type, field reflect.St
 			// Return schema with reference in extensions.
 			refSchema := openapi3.NewObjectSchema()
 			refSchema.Extensions = map[string]interface{}{
-				"$ref": "#/$defs/" + typeName,
+				"$ref": "#/$defs/" + refToken(typeName),
 			}
 			return refSchema
 		}
@@ -224,7 +225,7 @@ func (g *Generator) generateFieldSchemaWithRefs(t reflect.Type, field reflect.St
 		g.defs[typeName] = schema
 		refSchema := openapi3.NewObjectSchema()
 		refSchema.Extensions = map[string]interface{}{
-			"$ref": "#/$defs/" + typeName,
+			"$ref": "#/$defs/" + refToken(typeName),
 		}
 		return refSchema
 
@@ -276,6 +277,12 @@ func (g *Generator) generateTypeSchemaWithRefs(t reflect.Type) *openapi3.Schema 
 	default:
 		return convertPrimitiveType(t)
 	}
+}
+
+// refToken escapes one member name for use inside a "$ref" URI fragment: JSON Pointer escaping
+// (RFC 6901: "~" and "/") followed by percent-encoding of what a fragment may not contain.
+func refToken(name string) string {
+	return url.PathEscape(strings.NewReplacer("~", "~0", "/", "~1").Replace(name))
 }
 
 // getTypeName returns a readable type name for use in $defs.
@@ -930,9 +937,9 @@ func (g *NestedRefGenerator) generateStructSchema(t reflect.Type) *openapi3.Sche
 		// because the field will be wrapped in anyOf: [schema, null]
 		// So we need to adjust the path for child fields to reflect the actual JSON path
 		if isPointer && omitempty {
-			g.currentPath = append(g.currentPath, "properties", fieldName, "anyOf", "0")
+			g.currentPath = append(g.currentPath, "properties", refToken(fieldName), "anyOf", "0")
 		} else {
-			g.currentPath = append(g.currentPath, "properties", fieldName)
+			g.currentPath = append(g.currentPath, "properties", refToken(fieldName))
 		}
 
 		// Recursively generate field schema
